@@ -137,7 +137,13 @@ pub struct UdpSocketImpl {
 
 impl Socket for UdpSocketImpl {
     fn new(address: &SocketAddr, timeout_settings: &Option<TimeoutSettings>) -> GDResult<Self> {
-        let socket = net::UdpSocket::bind("0.0.0.0:0").map_err(|e| SocketBind.context(e))?;
+        // Bind a socket of the same address family as the server, an IPv4 socket
+        // cannot send to an IPv6 address.
+        let bind_address = match address {
+            SocketAddr::V4(_) => "0.0.0.0:0",
+            SocketAddr::V6(_) => "[::]:0",
+        };
+        let socket = net::UdpSocket::bind(bind_address).map_err(|e| SocketBind.context(e))?;
 
         let socket = Self {
             socket,
